@@ -892,3 +892,4 @@ RENAME_FUNCS = [(ML, 'Melody.set_length'), (EL, 'SimpleEventSequence.set_length'
 EXPLANATION += (' Location-independent additions: STEPS/num-steps-types (set of event types counted), STEPS/set-length-same (scenario steps == current length), PAIRED/append-validates-first (receivers unrolled through literal tuples and tuple-valued properties). INV is definite only on single-branch paths without unmodelled calls.')
 EXPLANATION += (' Round 6: ' + 'PITFALL/neg-zero-slice and PITFALL/previous-wraps over every method of every event-sequence class; PAIRED/every-exit (no exit of a length-changing LeadSheet method with one sequence edited and the other not).')
 EXPLANATION += (' Round 7: ' + 'COPY/deepcopy-is-deep; SLICE/offset-grid (a hand-written slice offset against slice.indices on 81 combinations); STEPS/pianoroll-range reads through the property chain.')
+EXPLANATION += (' Rounds 9-10: ' + 'PITFALL/dropped-pop over the step-appending methods (a popped element is put back or used on every way out).')
